@@ -45,3 +45,39 @@ pub fn unknown_off_kernel_model<'a>(remaining: &'a [u8], ty: FieldDataType, len:
     assert!(ty == FieldDataType::Unknown);
     Err(nom::Err::Error(nom::error::Error::new(remaining, nom::error::ErrorKind::Fail)))
 }
+
+/// Stub for `FieldValue::to_be_bytes` in harnesses whose packets hold no data records: the
+/// function is never called on a feasible path (asserted), but CBMC cannot fold the flowset
+/// kind read back from the heap and would otherwise explore the whole value serializer
+/// (io::Error construction included) for every flowset.
+pub fn fv_to_be_bytes_unreachable(_v: &FieldValue) -> Result<Vec<u8>, std::io::Error> {
+    assert!(false);
+    Ok(Vec::new())
+}
+
+/// Exact model of `FieldValue::to_be_bytes` on the domain "unsigned numbers of width <= 4"
+/// (the real function is checked for every data type in the kernel harnesses).
+pub fn fv_to_be_bytes_unsigned_model(v: &FieldValue) -> Result<Vec<u8>, std::io::Error> {
+    let mut out = Vec::with_capacity(4);
+    match v {
+        FieldValue::DataNumber(DataNumber::U8(n)) => out.push(*n),
+        FieldValue::DataNumber(DataNumber::U16(n)) => {
+            out.push((*n >> 8) as u8);
+            out.push(*n as u8);
+        }
+        FieldValue::DataNumber(DataNumber::U24(n)) => {
+            out.push((*n >> 16) as u8);
+            out.push((*n >> 8) as u8);
+            out.push(*n as u8);
+        }
+        FieldValue::DataNumber(DataNumber::U32(n)) => {
+            out.push((*n >> 24) as u8);
+            out.push((*n >> 16) as u8);
+            out.push((*n >> 8) as u8);
+            out.push(*n as u8);
+        }
+        _ => assert!(false),
+    }
+    Ok(out)
+}
+
